@@ -56,8 +56,14 @@ package parser
 //@   ensures[C01,returns-a-node] result != nil
 //@ end
 
+// C03: parlist ::= namelist [',' '...'] | '...' - the vararg marker is the last entry: once it has been consumed the
+// list is over (no further ', Name' is accepted after it; seed C03-parameter-after-vararg-accepted)
 //@ func (*Parser).parseParList
 //@   sweep C01
+//@   props C03
+// (stated as: every round of the loop that goes round again has added a name - the round that consumes the marker leaves;
+// `isVararg` itself cannot be named at the loop head, where it is a constant in the SSA of the correct code)
+//@   loop 0 step [C03,vararg-marker-ends-the-parameter-list] len(names) == prev(len(names)) + 1
 //@ end
 
 //@ func (*Parser).parseTableConstructorExp
